@@ -331,3 +331,94 @@ pub proof fn license_roundtrip_all_values(v: license::License, w: license::Licen
     ensures license_eq(v, w)
 {
 }
+
+// ---- DEP-3 Origin field: "[<category>, ]<origin>" ---------------------------------------------------
+impl VxDisplay for dep3_fields::OriginCategory {
+    open spec fn display_spec(&self) -> Seq<char> { origincat_text(*self) }
+}
+impl VxDisplay for dep3_fields::Origin {
+    open spec fn display_spec(&self) -> Seq<char> { origin_text(*self) }
+}
+pub open spec fn comma_sp() -> Seq<char> { ", "@ }
+
+/// printing: the category keyword and ", " when there is a category, then the origin
+pub open spec fn origin_field_text(cat: Option<dep3_fields::OriginCategory>, o: dep3_fields::Origin) -> Seq<char> {
+    (match cat { Some(c) => origincat_text(c) + comma_sp(), None => Seq::<char>::empty() }) + origin_text(o)
+}
+/// reading: the text before the first ", " (or the whole text) is a category keyword => category
+pub open spec fn origin_field_parse_is(s: Seq<char>, cat: Option<dep3_fields::OriginCategory>, o: dep3_fields::Origin) -> bool {
+    let pieces = splitn2_spec(s, comma_sp());
+    match origincat_parse(pieces[0]) {
+        Some(c) => cat == Some(c) && origin_parse_is(if pieces.len() > 1 { pieces[1] } else { Seq::<char>::empty() }, o),
+        None => cat is None && origin_parse_is(s, o),
+    }
+}
+
+pub open spec fn no_comma(a: Seq<char>) -> bool { forall|i: int| 0 <= i < a.len() ==> a[i] != ',' }
+
+/// the first ", " in `a ++ ", " ++ b` is right after a, when a has no comma
+pub proof fn lemma_find_comma_sp(a: Seq<char>, b: Seq<char>)
+    requires no_comma(a)
+    ensures find_sub(a + comma_sp() + b, comma_sp()) == a.len()
+    decreases a.len()
+{
+    reveal_strlit(", ");
+    let s = a + comma_sp() + b;
+    if a.len() == 0 {
+        assert(s.take(2) =~= comma_sp());
+    } else {
+        assert(s[0] == a[0]);
+        assert(!is_prefix(comma_sp(), s)) by {
+            if comma_sp().len() <= s.len() { assert(s.take(2)[0] == s[0]); assert(comma_sp()[0] == ','); }
+        }
+        assert(s.skip(1) =~= a.skip(1) + comma_sp() + b);
+        assert(no_comma(a.skip(1))) by { assert forall|i: int| 0 <= i < a.skip(1).len() implies a.skip(1)[i] != ',' by { assert(a.skip(1)[i] == a[i + 1]); } }
+        lemma_find_comma_sp(a.skip(1), b);
+    }
+}
+pub proof fn lemma_origincat_no_comma(c: dep3_fields::OriginCategory)
+    ensures no_comma(origincat_text(c))
+{
+    reveal_strlit("backport"); reveal_strlit("vendor"); reveal_strlit("upstream"); reveal_strlit("other");
+}
+/// value -> text -> value for the Origin field when a category is given
+pub proof fn origin_field_roundtrip_with_category(c: dep3_fields::OriginCategory, o: dep3_fields::Origin, c2: Option<dep3_fields::OriginCategory>, o2: dep3_fields::Origin)
+    requires
+        o is Other ==> !is_prefix(commit_prefix(), o->Other_0@),
+        origin_field_parse_is(origin_field_text(Some(c), o), c2, o2),
+    ensures c2 == Some(c), origin_eq(o, o2)
+{
+    let a = origincat_text(c);
+    let ot = origin_text(o);
+    lemma_origincat_no_comma(c);
+    lemma_find_comma_sp(a, ot);
+    reveal_strlit(", ");
+    let s = a + comma_sp() + ot;
+    assert(s.take(a.len() as int) =~= a);
+    assert(s.skip(a.len() as int + 2) =~= ot);
+    origincat_roundtrip(c);
+    origin_roundtrip(o, o2);
+}
+/// ... and without a category, as long as the origin text does not itself begin with a category keyword
+pub proof fn origin_field_roundtrip_without_category(o: dep3_fields::Origin, c2: Option<dep3_fields::OriginCategory>, o2: dep3_fields::Origin)
+    requires
+        o is Other ==> !is_prefix(commit_prefix(), o->Other_0@),
+        origincat_parse(splitn2_spec(origin_text(o), comma_sp())[0]) is None,
+        origin_field_parse_is(origin_field_text(None, o), c2, o2),
+    ensures c2 is None, origin_eq(o, o2)
+{
+    assert(Seq::<char>::empty() + origin_text(o) =~= origin_text(o));
+    origin_roundtrip(o, o2);
+}
+/// the same for every (category, origin) value — see known-findings.txt
+pub proof fn origin_field_roundtrip_all_values(c: Option<dep3_fields::OriginCategory>, o: dep3_fields::Origin, c2: Option<dep3_fields::OriginCategory>, o2: dep3_fields::Origin)
+    requires
+        o is Other ==> !is_prefix(commit_prefix(), o->Other_0@),
+        origin_field_parse_is(origin_field_text(c, o), c2, o2),
+    ensures c2 == c, origin_eq(o, o2)
+{
+    match c {
+        Some(cc) => { origin_field_roundtrip_with_category(cc, o, c2, o2); }
+        None => { assert(Seq::<char>::empty() + origin_text(o) =~= origin_text(o)); }
+    }
+}
